@@ -258,6 +258,12 @@ def build_value(name, f):
     if name in ("HexBinary", "Base64Binary"):
         return c(f[0])
     if name == "Duration":
+        if len(f) == 8:
+            # "raw": the fields are assigned on an existing object, as a client may do; nothing normalises them then
+            # (hours=25, minutes=90, months=13 stay as they are; days/hours/minutes/seconds may be fractions)
+            v = d.Duration()
+            v.years, v.months, v.days, v.hours, v.minutes, v.seconds, v.microseconds = f[:7]
+            return v
         return d.Duration(years=f[0], months=f[1], days=f[2], hours=f[3], minutes=f[4], seconds=f[5], microseconds=f[6])
     if name == "Decimal":
         return f[0]
@@ -296,7 +302,8 @@ def model_args(name, f):
     if name in ("HexBinary", "Base64Binary"):
         return list(f[0])
     if name == "Duration":
-        return list(f)
+        # the model has integer fields; it applies relativedelta's carrying itself, so raw integer fields are fine
+        return list(f[:7]) if all(isinstance(x, int) for x in f[:7]) else None
     if name == "Decimal":
         sign, digits, exp = f[0].as_tuple()
         return [sign, int("".join(map(str, digits)) or "0"), exp]
@@ -400,6 +407,19 @@ def gen_duration_fields(rng):
     if rng.random() < 0.15:
         mag[0] = rng.choice([2**53 + 1, 2**64, 10**20])
     r = rng.random()
+    if r < 0.30:
+        # fields assigned after construction: un-normalised integers and fractions of days/hours/minutes/seconds
+        raw = [rng.choice([0, 0, 1, 2]), rng.choice([0, 0, 5, 12, 13, 25]), rng.choice([0, 0, 1, 0.5, 1.5, 0.25, 0.1, 40]),
+               rng.choice([0, 0, 1, 24, 25, 49, 1.5, 0.5, 0.75, 23.5]), rng.choice([0, 0, 59, 60, 90, 2.25, 0.5, 61.5]),
+               rng.choice([0, 0, 59, 60, 3600, 3600.5, 1.25, 0.000001, 86399.999999]), rng.choice([0, 0, 1, 999999, 1000000, 1500000])]
+        if rng.random() < 0.08:
+            raw[rng.randrange(2)] = rng.choice([0.5, 1.5])           # fractional years/months: ambiguous, must be refused
+        sg = rng.random()
+        if sg < 0.4:
+            raw = [-x for x in raw]
+        elif sg < 0.5:
+            raw = [x if rng.random() < 0.5 else -x for x in raw]
+        return raw + ["raw"]
     if r < 0.45:
         return mag
     if r < 0.85:
@@ -501,7 +521,10 @@ def in_value_space(name, f):
         return not any(c in f[0] for c in "\r\n\t")
     if name == "Duration":
         # the value is what the relativedelta constructor makes of the arguments (it carries overflows upwards)
-        v = build_value(name, f)
+        try:
+            v = build_value(name, f).normalized()
+        except ValueError:
+            return False          # relativedelta refuses non-integral years/months ("ambiguous")
         nz = [x for x in (v.years, v.months, v.days, v.hours, v.minutes, v.seconds, v.microseconds) if x]
         return all(x > 0 for x in nz) or all(x < 0 for x in nz)
     if name == "Decimal":
@@ -525,7 +548,8 @@ EXOTIC = ["\u0661\u0662", "\x0c5", "\uff15", "\u00a05", "5\u2009", "1_0", "0x1f"
           "24:00:00", "23:59:60", "00:00:00.", "00:00:00.9999999", "12:00:00+14:01", "12:00:00+15:00", "12:00:00+01:75",
           "12:00:00-14:00", "12:00:00+14:00", "12:00:00-00:00", "12:00:00z", "2000-01-01T24:00:00", "0000-01-01",
           "2000-02-30", "1900-02-29", "2000-02-29", "2100-02-29Z", "12000-01-01", "-2000-01-01", "2000-1-1", "2000-01-01+13:00",
-          "2000-01-01\n", "2000-01-01\n\n", " 2000-01-01", "0000", "12345", "-0001", "999", "2020\n", "--02-30", "--02-29",
+          "2000-01-01\n", "2000-01-01\n\n", " 2000-01-01", "0000", "12345", "99999999999-01-01", "2147483648-12-31Z", "99999999999-01-01T00:00:00",
+          "10000-01-01T12:00:00+01:00", "4294967296", "99999999999-05", "12000-02-30", "100000-01", "-0001", "999", "2020\n", "--02-30", "--02-29",
           "--04-31", "--13-01", "---00", "---32", "---31+14:00", "--00", "--12Z", "--12--", "aGk=", "aGl=", "aGk", "a Gk =",
           "!!aGk=", "aGk=\n", "aQ==", "aR==", "a===", "====", "YWJj", "YWJj YWJj", "=aGk", "ab cd", "AB", "aB", "abc", "0g",
           " abcd ", "ab\ncd", "1.", ".5", ".", "+.5", "-0", "+0", "-0.0", "00012", "1,5", "1 000", "١", "0.1e1", "1e", "e1",
@@ -554,6 +578,8 @@ def mutate(rng, s):
     return s[:i] + s[j:i:-1] + s[i:i + 1] + s[j + 1:] if j > i else s + s
 
 
+LONG_YEARS = ["10000", "12000", "99999", "100000", "2147483647", "2147483648", "4294967296", "99999999999", "999999999999",
+              "9223372036854775808", "00002020", "000000000001"]
 NONASCII_DIGITS = ["\u0660\u0661\u0662\u0663\u0664\u0665\u0666\u0667\u0668\u0669",      # Arabic-Indic
                    "\uff10\uff11\uff12\uff13\uff14\uff15\uff16\uff17\uff18\uff19",      # fullwidth
                    "\u0966\u0967\u0968\u0969\u096a\u096b\u096c\u096d\u096e\u096f"]      # Devanagari
@@ -570,6 +596,9 @@ def variants(rng, name, s):
         out += [s[:i] + tbl[int(s[i])] + s[i + 1:], s[:i + 1] + "_" + s[i + 1:]]
     if name in INT_BOUNDS or name in ("Decimal", "Float", "Double"):
         out += ["+" + s if not s.startswith("-") else s, ("-000" + s[1:]) if s.startswith("-") else "000" + s]
+    if name in ("Date", "DateTime", "GYear", "GYearMonth") and re.match(r"\d{4}", s):
+        # XSD allows more than four year digits; datetime ends at 9999 - such literals must be refused with ValueError
+        out += [y + s[4:] for y in (rng.choice(LONG_YEARS), rng.choice(LONG_YEARS), "0" + s[:4], "-" + s[:4])]
     if name in ("Time", "DateTime") and "." not in s:
         out += [re.sub(r"(\d\d:\d\d:\d\d)", r"\1.5", s, 1), re.sub(r"(\d\d:\d\d:\d\d)", r"\1.0000001", s, 1)]
     if s.endswith("Z"):
@@ -632,6 +661,13 @@ MODEL_VALID = {n for _, n, _ in TYPES}
 
 
 def values_equal(name, a, b):
+    if name == "Duration":
+        # a relativedelta denotes what normalized() makes of its fields (25 h = 1 d 1 h, 1.5 h = 1 h 30 min);
+        # its own == compares the raw fields
+        try:
+            a, b = a.normalized(), b.normalized()
+        except ValueError:
+            return False
     if name in ("Float", "Double"):
         return (math.isnan(a) and math.isnan(b)) or (a == b and math.copysign(1, a) == math.copysign(1, b))
     return a == b and not (a != b)
@@ -680,6 +716,11 @@ def oracle_property_json(chk, name, v, s):
     except Exception as e:  # noqa
         return f"Property JSON round trip raised {type(e).__name__}: {e}"
     return None
+
+
+def literal_failure_kind(name, lit):
+    """signature class of a failing literal: an exception other than ValueError, or an accepted malformed literal"""
+    return "wrong-exception" if sdk_parse(name, lit)[0][0] in (2, 99) else "accepts-malformed"
 
 
 def shrink_literal(lit, pred):
@@ -744,8 +785,10 @@ def value_failure(name, f):
     pobs, v2, e = sdk_parse(name, s)
     if pobs[0] != 0:
         return ("roundtrip", f"from_xsd(xsd_repr(v)) raised {type(e).__name__} for v = {v!r} ({s!r})")
-    if not values_equal(name, v2, v) or not type_ok(name, v2):
-        return ("roundtrip", f"from_xsd(xsd_repr(v)) = {v2!r} != v = {v!r} ({s!r})")
+    # a duration denotes what relativedelta.normalized() makes of its fields (25 h = 1 d 1 h, 1.5 h = 1 h 30 min)
+    want = v.normalized() if name == "Duration" else v
+    if not values_equal(name, v2, want) or not type_ok(name, v2):
+        return ("roundtrip", f"from_xsd(xsd_repr(v)) = {v2!r} != v = {want!r} ({s!r})")
     return None
 
 
@@ -784,8 +827,10 @@ def fresh_copy(name, v):
     if name in ("HexBinary", "Base64Binary"):
         return c(bytes(v))
     if name == "Duration":
-        return d.Duration(years=v.years, months=v.months, days=v.days, hours=v.hours, minutes=v.minutes,
-                          seconds=v.seconds, microseconds=v.microseconds)
+        w = d.Duration()      # the same raw state (a constructor call would already carry overflows)
+        w.years, w.months, w.days, w.hours, w.minutes, w.seconds, w.microseconds = \
+            v.years, v.months, v.days, v.hours, v.minutes, v.seconds, v.microseconds
+        return w
     if name == "GYearMonth":
         return c(v.year, v.month, v.tzinfo)
     if name == "GYear":
@@ -951,6 +996,10 @@ def object_in_value_space(tname, val):
     if tname == "Decimal":
         return val.is_finite()
     if tname == "Duration":
+        try:
+            val = val.normalized()
+        except ValueError:
+            return False
         nz = [x for x in (val.years, val.months, val.days, val.hours, val.minutes, val.seconds, val.microseconds) if x]
         return all(x > 0 for x in nz) or all(x < 0 for x in nz)
     if tname in TZ_FIELD:
@@ -998,7 +1047,7 @@ def holder_state_failure(kind, h):
             back = d.from_xsd(lit, vt)
         except Exception as e:  # noqa
             return f"{kind} announces xs:{xs}; the literal {lit!r} of its {sl} cannot be read with that type: {type(e).__name__}"
-        if not values_equal(tname, back, val):
+        if not values_equal(tname, back, val.normalized() if tname == "Duration" else val):
             return f"{kind} announces xs:{xs}; its {sl} {val!r} is written as {lit!r}, which reads back as {back!r}"
         lits[sl] = lit
     unwritable = [sl for sl, val in slots if val is not None and sl not in lits]
@@ -1224,8 +1273,9 @@ def run(chk):
             chk.seen(("l", name, lit), nontrivial=len(lit) > 0)
             msg = literal_failure(name, lit)
             if msg:
-                small = shrink_literal(lit, lambda c: literal_failure(name, c) is not None)
-                chk.fail(f"C06:accepts-malformed:{name}", literal_failure(name, small),
+                kind0 = literal_failure_kind(name, lit)
+                small = shrink_literal(lit, lambda c: literal_failure(name, c) is not None and literal_failure_kind(name, c) == kind0)
+                chk.fail(f"C06:{kind0}:{name}", literal_failure(name, small),
                          {"kind": "literal", "type": name, "literal": small, "how": "tools/c06.py literal_failure(type, literal)"})
             if obs[0] == 99:
                 obs = [99]
@@ -1234,6 +1284,18 @@ def run(chk):
                 add(parse_case(tid, lit, obs), ("parse", name, lit))
             if name in MODEL_VALID:
                 add(valid_case(tid, lit, ok), ("valid", name, lit))
+
+    # ---- directed: the calendar corners with a fixed set of zones, printed by the SDK and by the model
+    for name, f in corner_cases(CORNER_ZONES_MODEL):
+        try:
+            obs = sdk_print(build_value(name, f))[0]
+        except Exception as e:  # noqa
+            obs = enc_exc(e)
+        args = model_args(name, f)
+        if args is not None:
+            add(case_term(1, TID[name], "", args, obs), ("print", name, f))
+        add(case_term(7, TID[name], "", model_args_us(name, f), obs), ("print-us", name, f))
+        chk.count("corner-print")
 
     # ---- the mapping is a function: every literal and every value a second time, in the opposite order, after the
     # results of the first pass have been edited in place by their holders
@@ -1342,9 +1404,42 @@ def run(chk):
 
 # ---------------------------------------------------------------------------------------------
 
+# the corners of the calendar for every type that carries a zone (leap day, month ends, year 1 and 9999, three-digit
+# years, midnight and the last microsecond of the day, the day-of-month limits of gMonthDay and gDay)
+CORNER_VALUES = {
+    "Date": [[2000, 2, 29], [2024, 2, 29], [1900, 2, 28], [1, 1, 1], [9999, 12, 31], [999, 5, 31], [2023, 4, 30]],
+    "DateTime": [[2000, 2, 29, 23, 59, 59, 999999], [1, 1, 1, 0, 0, 0, 0], [9999, 12, 31, 23, 59, 59, 1],
+                 [1900, 2, 28, 12, 0, 0, 0], [999, 12, 31, 0, 0, 0, 1009]],
+    "Time": [[0, 0, 0, 0], [23, 59, 59, 999999], [12, 34, 56, 1009], [0, 0, 0, 1]],
+    "GYearMonth": [[2000, 2], [1, 1], [9999, 12], [999, 5], [1900, 2]],
+    "GYear": [[1], [999], [2000], [9999]],
+    "GMonthDay": [[2, 29], [2, 28], [1, 1], [12, 31], [4, 30], [1, 31], [11, 30], [3, 31]],
+    "GDay": [[1], [28], [29], [30], [31]],
+    "GMonth": [[1], [2], [11], [12]],
+}
+CORNER_ZONES_MODEL = [None, 0, 1, -1, 330, -570, 839, 840, -840, 841, -841, ("us", 3600000500), ("us", 50400000001)]
+
+
+def corner_cases(zones):
+    for name, rows in CORNER_VALUES.items():
+        for row in rows:
+            for z in zones:
+                yield name, list(row) + [z]
+
+
 def sweep_sdk(chk, full):
-    """finite domains run on the SDK itself (oracle only)"""
+    """finite domains run on the SDK itself (oracle only); everything but the microsecond sweep is the same in both tiers"""
     d = D()
+    # every calendar corner of every zone-bearing type with no zone and with EVERY zone offset -14:00..+14:00
+    n = 0
+    for name, f in corner_cases([None] + list(range(-840, 841))):
+        n += 1
+        fail = value_failure(name, f)
+        if fail:
+            chk.fail(f"C06:{fail[0]}:{name}", fail[1], {"kind": "value", "type": name, "fields": repr(f),
+                                                        "how": "tools/c06.py value_failure(type, fields)"})
+    chk.cov["sdk_calendar_corners_x_zones"] = n
+    chk.evaluations += n
     # every zone offset -14:00..+14:00 on a Date, a Time and a GDay
     n = 0
     for off in range(-840, 841):
@@ -1375,15 +1470,17 @@ def sweep_sdk(chk, full):
                 chk.fail(f"C06:{fail[0]}:{name}", fail[1], {"kind": "value", "type": name, "fields": repr(f),
                                                             "how": "tools/c06.py value_failure(type, fields)"})
     chk.cov["sdk_subminute_offsets"] = n
-    # every month/day pair
+    # every month/day pair, without a zone and with five zones
     n = 0
     for m in range(0, 14):
         for dd in range(0, 33):
             n += 1
             valid = 1 <= m <= 12 and 1 <= dd <= dim(2000, m)
-            fail = value_failure("GMonthDay", [m, dd, None])
-            if fail:
-                chk.fail(f"C06:{fail[0]}:GMonthDay", fail[1], {"kind": "value", "type": "GMonthDay", "fields": [m, dd, None]})
+            for z in (None, 0, 840, -840, 330, -1):
+                fail = value_failure("GMonthDay", [m, dd, z])
+                if fail:
+                    chk.fail(f"C06:{fail[0]}:GMonthDay", fail[1], {"kind": "value", "type": "GMonthDay", "fields": repr([m, dd, z]),
+                                                                    "how": "tools/c06.py value_failure(type, fields)"})
             lit = "--%02d-%02d" % (m, dd)
             msg = literal_failure("GMonthDay", lit)
             if msg:
